@@ -137,7 +137,7 @@ class C10(Check):
                   'returns" for the code as it is now (c_fixed=true: worker re-arms the wake-up after a successful second pop, '
                   'FastSignal::reset re-checks _state, the shrink request wakes a worker). It is validated only by (1) exhaustive '
                   'explicit-state search (ocaml/future_driver.ml search, not a proof) of the model: 1 client, 3 workers, windows of 4 '
-                  'script operations, queue capacity 4 (8.9M states) and 1 (15.5M states): no reachable state with all threads '
+                  'script operations, queue capacity 4 (9.3M states, exhausted) and 1 (15.5M states, exhausted): no reachable state with all threads '
                   'blocked and a client unfinished, while the same search finds the deadlocks of the old handshake; (2) the '
                   'real-thread runs below. Fairness of the OS scheduler is not modelled. Modelling abstractions: sequential '
                   'consistency (visibility on real hardware is not modelled); Signal (mutex+condvar+flag) is an atomic flag with a '
@@ -285,7 +285,7 @@ class C10(Check):
         cases = []
         for i in range(30 * mul):
             ncl = rng.choice([1, 1, 2])
-            cases.append([cfg_line(cmin=rng.choice([0, 0, 1]), cmax=rng.choice([3, 4]), q=rng.choice([2, 4, 8]), ncl=ncl,
+            cases.append([cfg_line(cmin=rng.choice([0, 0, 1]), cmax=rng.choice([3, 4]), q=rng.choice([1, 2, 4, 8]), ncl=ncl,
                                    scale=rng.choice([200, 1000, 5000]), perturb=rng.choice([0, 1, 2]), seed=sd())]
                          + gen_script(rng, ncl, rng.randrange(15, 50), pauses=0.3, long_pause=0.5, works=(0, 0, 1)))
         out.append(Stream('shrink', cases, note='clock scaled so that the idle test passes: workers retire and are respawned'))
